@@ -53,6 +53,9 @@ type pSys struct {
 
 	err    error
 	closed bool
+	// poisoned: code under test panicked in this instance. Nothing may wait for it any more; it
+	// is only torn down (its mutex is force-released if the panic left it locked).
+	poisoned bool
 }
 
 func newPSys(t *testing.T, cfg pCfg) *pSys {
@@ -81,7 +84,14 @@ func (s *pSys) start(convert bool) {
 		w.wasFailed = map[uint64]bool{}
 		s.converted = true
 	}
-	svc, err := NewService(pPruner{w}, w.window(), pStore{w}, w.ds, pBT, WithPruneCycle(pCycle))
+	var svc *Service
+	var err error
+	if pe := pGuard("load", func() {
+		svc, err = NewService(pPruner{w}, w.window(), pStore{w}, w.ds, pBT, WithPruneCycle(pCycle))
+	}); pe != nil {
+		s.panicked(pe)
+		return
+	}
 	if err != nil {
 		s.fail("harness: NewService: %v", err)
 		return
@@ -94,15 +104,23 @@ func (s *pSys) start(convert bool) {
 	}
 	w.callsInCycle = 0
 	w.cycleLog = nil
-	if err := svc.Start(context.Background()); err != nil {
+	s.svc = svc
+	if pe := pGuard("load", func() { err = svc.Start(context.Background()) }); pe != nil {
+		s.panicked(pe)
+		return
+	}
+	if err != nil {
 		s.fail("harness: Start: %v", err)
 		return
 	}
-	s.svc = svc
 	s.ph = pRunning
 	s.crashed = false
 	s.memAtStop = nil
 	synctest.Wait()
+	s.poll()
+	if s.poisoned {
+		return
+	}
 	if persistedBefore != nil && svc.checkpoint.LastPrunedHeight < persistedBefore.LastPrunedHeight {
 		s.fail("C14/checkpoint-moved-backwards/restart: persisted last pruned height %d, after restart the service works from %d",
 			persistedBefore.LastPrunedHeight, svc.checkpoint.LastPrunedHeight)
@@ -112,14 +130,20 @@ func (s *pSys) start(convert bool) {
 	if convert {
 		// nodebuilder/pruner.convertToPruned runs as a start hook after Service.Start
 		s.resetDone = make(chan error, 1)
+		done := s.resetDone
 		go func() {
-			_, err := svc.LastPruned(context.Background())
-			if err == nil {
-				w.inReset = true
-				err = svc.ResetCheckpoint(context.Background())
-				w.inReset = false
+			var err error
+			if pe := pGuard("reset", func() {
+				_, err = svc.LastPruned(context.Background())
+				if err == nil {
+					w.inReset = true
+					err = svc.ResetCheckpoint(context.Background())
+				}
+			}); pe != nil {
+				err = pe
 			}
-			s.resetDone <- err
+			w.inReset = false
+			done <- err
 		}()
 		synctest.Wait()
 	}
@@ -128,16 +152,43 @@ func (s *pSys) start(convert bool) {
 func (s *pSys) beginStop() {
 	s.stopDone = make(chan error, 1)
 	svc := s.svc
-	go func() { s.stopDone <- svc.Stop(context.Background()) }()
+	done := s.stopDone
+	go func() {
+		var err error
+		if pe := pGuard("stop", func() { err = svc.Stop(context.Background()) }); pe != nil {
+			err = pe
+		}
+		done <- err
+	}()
 	s.ph = pStopping
 	synctest.Wait()
 }
 
+func isPanicErr(err error) bool { return err != nil && strings.HasPrefix(err.Error(), "C14/panic/") }
+
+// panicked records a panic of the code under test as the instance's violation and poisons it.
+func (s *pSys) panicked(err error) {
+	s.poisoned = true
+	if !s.closed {
+		s.fail("%v", err)
+	}
+}
+
 func (s *pSys) poll() {
+	if s.svc != nil {
+		if v, ok := pPanics.LoadAndDelete(s.svc); ok {
+			// the run() goroutine of the Service died: no further cycle will ever run
+			pp := v.(pPanic)
+			s.panicked(fmt.Errorf("C14/panic/cycle: the pruning cycle panics, the run() goroutine is gone (in production the node goes down): %s", panicMsg(pp.Value, pp.Stack)))
+		}
+	}
 	if s.ph == pStopping {
 		select {
 		case err := <-s.stopDone:
-			if err != nil && !s.closed {
+			switch {
+			case isPanicErr(err):
+				s.panicked(err)
+			case err != nil && !s.closed:
 				s.fail("harness: Stop returned %v", err)
 			}
 			s.ph = pStopped
@@ -147,7 +198,10 @@ func (s *pSys) poll() {
 	}
 	if s.del != nil {
 		select {
-		case <-s.del.done:
+		case err := <-s.del.done:
+			if isPanicErr(err) {
+				s.panicked(err)
+			}
 			s.del = nil
 		default:
 		}
@@ -155,7 +209,10 @@ func (s *pSys) poll() {
 	if s.resetDone != nil {
 		select {
 		case err := <-s.resetDone:
-			if err != nil && !s.closed {
+			switch {
+			case isPanicErr(err):
+				s.panicked(err)
+			case err != nil && !s.closed:
 				s.fail("harness: ResetCheckpoint returned %v", err)
 			}
 			s.resetDone = nil
@@ -176,10 +233,18 @@ func (s *pSys) teardown() {
 		synctest.Wait()
 		s.poll()
 		p := w.pendingSorted()
-		if len(p) == 0 {
-			break
+		if len(p) > 0 {
+			w.answer(p[0], "dead")
+			continue
 		}
-		w.answer(p[0], "dead")
+		inFlight := s.ph == pStopping || s.del != nil || s.resetDone != nil
+		if inFlight && s.poisoned && s.svc != nil && s.svc.checkpointMu.Locked() {
+			// a panic left the service mutex locked: whoever waits for it is let through so
+			// that the bubble can end; nothing of this is observed any more
+			s.svc.checkpointMu.Unlock()
+			continue
+		}
+		break
 	}
 	synctest.Wait()
 	s.poll()
@@ -282,7 +347,13 @@ func (s *pSys) apply(ev string) error {
 	case "tail+1":
 		d := &pDel{h: w.tail, done: make(chan error, 1)}
 		s.del = d
-		go func() { d.done <- w.deleteTail(context.Background()) }()
+		go func() {
+			var err error
+			if pe := pGuard("header-delete-hook", func() { err = w.deleteTail(context.Background()) }); pe != nil {
+				err = pe
+			}
+			d.done <- err
+		}()
 	case "stop":
 		s.beginStop()
 	case "crash":
